@@ -93,7 +93,7 @@ func worker() {
 					fmt.Fprintln(os.Stderr, "worker: unknown property", req.Property)
 					os.Exit(2)
 				}
-				spec = d.Gen(req.Seed, req.Run, req.Tier)
+				spec = h.CloneSpec(d.Gen(req.Seed, req.Run, req.Tier)) // same (JSON-normalised) form as a replay file
 			}
 			if req.Cmd == "gen" {
 				enc.Encode(&h.Result{Run: spec.Run, Spec: spec})
@@ -440,7 +440,7 @@ func supervise(prop, tier string) int {
 				if crashed {
 					p.stop()
 					p = nil
-					spec := d.Gen(seed, run, tier)
+					spec := h.CloneSpec(d.Gen(seed, run, tier))
 					res = crashResult(spec, text)
 					res.Stats = map[string]int64{"worker_crashes": 1}
 				}
